@@ -44,7 +44,7 @@ GRIDS = [
 KINDS = ["disp", "svf", "ffd", "svffd", "lin"]
 COQK = {"disp": "KDisp", "svf": "KSvf", "ffd": "KFfd", "svffd": "KSvffd", "lin": "KLin", "seq": "KSeq"}
 ERRS = ["TypeErr", "ValueErr", "AssertErr", "AttrErr", "ReadOnly", "NotImpl", "IndexErr"]
-CREATING = ("new", "seq", "inverse", "copy", "cond")
+CREATING = ("new", "seq", "inverse", "copy", "cond", "grid", "data")
 
 
 def ext(g):
@@ -104,6 +104,10 @@ def coq_op(op):
         return f"CondSet {T} {o} ({op['c'][0]}, {op['c'][1]})%nat"
     if k == "cond":
         return f"CondNew {T} {o} ({op['c'][0]}, {op['c'][1]})%nat"
+    if k == "grid":
+        return f"GridNew {T} {o} {op['grid']}"
+    if k == "data":
+        return f"DataNew {T} {o} {pv(op['val'], op['gfor'])} {b(op.get('isparam'))}"
     if k == "inverse":
         return f"Inverse {T} {o} {b(op['link'])} {b(op['upd'])}"
     if k == "link_":
